@@ -82,6 +82,10 @@ func (r *presign3) VerifyMessage(msg round.Message) error {
 		return round.ErrInvalidContent
 	}
 
+	if !r.Paillier[from].ValidateCiphertexts(body.DeltaF, body.ChiF) {
+		return errors.New("received invalid ciphertext")
+	}
+
 	if !body.DeltaProof.Verify(r.Group(), r.HashForID(from), zkaffp.Public{
 		Kv:       r.K[to],
 		Dv:       r.DeltaCiphertext[from][to],
